@@ -56,13 +56,14 @@ func c19Size(s string) uint64 {
 
 // hostileLog serves one feeder type's protocol with a log-signed checkpoint of hostile size/root.
 type hostileLog struct {
-	kind    string
-	stub    *tileStub
-	cp      []byte
-	tree    *RefTree
-	size    uint64
-	treeID  string
-	variant uint64 // which malformed body the serverless stub serves for tile requests
+	kind     string
+	stub     *tileStub
+	cp       []byte
+	tree     *RefTree
+	size     uint64
+	treeID   string
+	variant  uint64 // which malformed body the serverless stub serves for tile requests
+	inactive bool   // rekor: the configured tree is listed among the inactive shards
 }
 
 func (h *hostileLog) ServeHTTP(rw http.ResponseWriter, rq *http.Request) {
@@ -114,7 +115,13 @@ func (h *hostileLog) ServeHTTP(rw http.ResponseWriter, rq *http.Request) {
 	case "rekor":
 		switch {
 		case p == "/api/v1/log":
-			js, _ := json.Marshal(map[string]any{"signedTreeHead": string(h.cp), "treeID": h.treeID, "treeSize": 1, "rootHash": "00", "inactiveShards": []any{}})
+			info := map[string]any{"signedTreeHead": string(h.cp), "treeID": h.treeID, "treeSize": 1, "rootHash": "00", "inactiveShards": []any{}}
+			if h.inactive {
+				// the configured tree is an inactive shard; the active one is some other tree
+				info = map[string]any{"signedTreeHead": "other.example/log\n1\nAAAA\n\n\u2014 k AAAAAAAA\n", "treeID": "999", "treeSize": 1, "rootHash": "00",
+					"inactiveShards": []any{map[string]any{"signedTreeHead": "x", "treeID": "555", "treeSize": 1, "rootHash": "00"}, map[string]any{"signedTreeHead": string(h.cp), "treeID": h.treeID, "treeSize": 1, "rootHash": "00"}}}
+			}
+			js, _ := json.Marshal(info)
 			rw.Write(js)
 		case p == "/api/v1/log/proof":
 			var a, b uint64
@@ -141,8 +148,9 @@ type c19Case struct {
 	Net     string `json:"net"` // fault for a seeded subset of requests
 	NetSeed uint64 `json:"net_seed"`
 	Seed    uint64 `json:"seed"`
-	Prior   bool   `json:"prior"`          // the witness already holds an honest checkpoint of size 5
-	Poll    bool   `json:"poll,omitempty"` // polling mode: the feeder runs for 20 poll intervals
+	Prior   bool   `json:"prior"`            // the witness already holds an honest checkpoint of size 5
+	Poll    bool   `json:"poll,omitempty"`   // polling mode: the feeder runs for 20 poll intervals
+	Honest  bool   `json:"honest,omitempty"` // nothing hostile: the cycle must succeed
 }
 
 // TestC19Case runs one feeder (or distributor) cycle inside a bubble and prints how it ended. It is the
@@ -227,7 +235,7 @@ func c19Run(c c19Case) string {
 	if size > 1<<40 {
 		st.size = 1 << 20
 	}
-	hl := &hostileLog{kind: c.Feeder, stub: st, cp: cp, tree: tree, size: st.size, treeID: "1234", variant: c.NetSeed / 7}
+	hl := &hostileLog{kind: c.Feeder, stub: st, cp: cp, tree: tree, size: st.size, treeID: "1234", variant: c.NetSeed / 7, inactive: c.Honest && c.NetSeed%2 == 0}
 	sn.Hosts[host] = hl
 	u := "http://" + host
 	var ff omniwitness.Feeder
@@ -388,7 +396,12 @@ func init() {
 			if r.Chance(0.1) {
 				c.Prior = false
 			}
-			if c.Feeder != "distributor" && r.Chance(0.25) {
+			if r.Chance(0.12) {
+				// an honest peer, for contrast: nothing hostile at all, so the cycle must end WITHOUT an error (for the rekor feeder the
+				// configured tree is one of the log's inactive shards half of the time)
+				c.Size, c.Root, c.Net, c.Prior, c.Honest = "normal", 32, "", true, true
+			}
+			if c.Feeder != "distributor" && !c.Honest && r.Chance(0.25) {
 				// polling mode against a log that answers, but slowly or never, on some requests
 				c.Poll, c.Size, c.Root, c.Prior = true, "normal", 32, true
 				c.Net = Pick(r, "stall", "stall", "stall", "delay:45000", "status:500", "trunc:7")
@@ -433,6 +446,9 @@ func init() {
 				}
 				if c.Size != "normal" || c.Root != 32 || c.Net != "" {
 					out.Distinct = []string{fmt.Sprintf("%s/%s/%d/%s/%s", c.Feeder, sizeClass, c.Root, strings.SplitN(c.Net, ":", 2)[0], o.kind)}
+				}
+				if o.kind == "ended" && c.Honest {
+					out.Stats.Probes["honest_peer/"+c.Feeder+"/"+strings.TrimPrefix(o.detail, "RESULT ended ")]++
 				}
 				if c.Poll && o.kind == "ended" {
 					cycles := -1
